@@ -30,17 +30,20 @@ import (
 // ---------- scripted transport ----------
 
 type scriptConn struct {
-	mu       sync.Mutex
-	chunks   [][]byte
-	pause    []time.Duration
-	idx      int
-	closed   chan struct{}
-	once     sync.Once
-	writes   [][]byte
-	wsignal  chan struct{}
-	eofAtEnd bool      // the peer closes after its last byte: Read reports end of stream
-	rdl      time.Time // read deadline, as set through SetDeadline / SetReadDeadline
-	waited   bool      // the silence before the current chunk has been served
+	mu        sync.Mutex
+	chunks    [][]byte
+	pause     []time.Duration
+	idx       int
+	closed    chan struct{}
+	once      sync.Once
+	writes    [][]byte
+	wsignal   chan struct{}
+	eofAtEnd  bool   // the peer closes after its last byte: Read reports end of stream
+	wire      []byte // every byte the transport accepted, in order
+	stallAt   int    // the stallAt-th Write (1-based) takes only stallKeep bytes and then times out; 0 = never
+	stallKeep int
+	rdl       time.Time // read deadline, as set through SetDeadline / SetReadDeadline
+	waited    bool      // the silence before the current chunk has been served
 }
 
 func newScriptConn(chunks [][]byte, pause []time.Duration) *scriptConn {
@@ -121,7 +124,21 @@ func (c *scriptConn) Write(b []byte) (int, error) {
 	default:
 	}
 	c.mu.Lock()
+	if c.stallAt > 0 && len(c.writes)+1 == c.stallAt {
+		// the peer stops reading part-way through this message: the bytes taken so far are on the
+		// wire, the rest is not, and the write deadline passes
+		c.stallAt = 0
+		k := c.stallKeep
+		if k > len(b) {
+			k = len(b)
+		}
+		c.writes = append(c.writes, append([]byte{}, b[:k]...))
+		c.wire = append(c.wire, b[:k]...)
+		c.mu.Unlock()
+		return k, os.ErrDeadlineExceeded
+	}
 	c.writes = append(c.writes, append([]byte{}, b...))
+	c.wire = append(c.wire, b...)
 	c.mu.Unlock()
 	select {
 	case c.wsignal <- struct{}{}:
@@ -651,6 +668,76 @@ func runQuiet(id int, r *rng.R, role string) {
 	emit(rec)
 }
 
+// runStalledWrite: the peer stops reading part-way through one outbound message, so that the write
+// of it times out after some of its bytes were taken. Whatever the connection does next, the
+// outbound byte stream stays a prefix of the hand-offs in order: every earlier message whole,
+// nothing behind a torn one.
+func runStalledWrite(id int, r *rng.R, role string) {
+	n := r.Range(2, 4)
+	var outs [][]byte
+	var all []byte
+	for k := 1; k <= n; k++ {
+		m := genMessage(r, 100, k)
+		outs = append(outs, m)
+		all = append(all, m...)
+	}
+	at := r.Range(1, n)
+	keep := r.Range(1, len(outs[at-1])-1)
+	wd := 20 * time.Millisecond
+	sc := newScriptConn(nil, nil)
+	sc.stallAt, sc.stallKeep = at, keep
+	var h *recHandler
+	var stop func()
+	if role == "initiator" {
+		h = newRecHandler(context.Background(), 0)
+		ini := simplefixgo.NewInitiator(sc, h, 1, wd)
+		go func() { _ = ini.Serve() }()
+		stop = func() { ini.Close(); h.cancel() }
+	} else {
+		l := &scriptListener{conns: make(chan net.Conn, 1), closed: make(chan struct{})}
+		f := &factory{outBuf: 0}
+		got := make(chan *recHandler, 1)
+		acc := simplefixgo.NewAcceptor(l, f, wd, func(hh simplefixgo.AcceptorHandler) { got <- hh.(*recHandler) })
+		go func() { _ = acc.ListenAndServe() }()
+		l.conns <- sc
+		select {
+		case h = <-got:
+		case <-time.After(2 * time.Second):
+			h = newRecHandler(context.Background(), 0)
+		}
+		stop = func() { acc.Close(); l.Close(); sc.Close() }
+	}
+	handed := 0
+	for _, m := range outs {
+		select {
+		case h.out <- m:
+			handed++
+		case <-time.After(300 * time.Millisecond): // the connection has ended: nobody takes hand-offs any more
+		}
+	}
+	time.Sleep(4 * wd)
+	sc.mu.Lock()
+	wire := append([]byte{}, sc.wire...)
+	sc.mu.Unlock()
+	stop()
+	rec := &Rec{ID: id, Mode: "stream-stalled-write", Case: fmt.Sprintf("%s: %d outbound messages, the write of message %d times out after %d of its %d bytes", role, n, at, keep, len(outs[at-1])),
+		Oracle: map[string]string{}, Tags: []string{"stalled-write", role}, Size: len(all), Skip: true}
+	rec.Impl = fmt.Sprintf("handed=%d wire=%d", handed, len(wire))
+	verdict := "ok"
+	before := 0
+	for k := 0; k < at-1; k++ {
+		before += len(outs[k])
+	}
+	switch {
+	case !bytes.HasPrefix(all, wire):
+		verdict = fmt.Sprintf("fail: after the write of message %d timed out with %d bytes taken, the outbound stream is not the hand-offs in order any more: %q on the wire, handed off %q", at, keep, wire, all)
+	case len(wire) < before+keep:
+		verdict = fmt.Sprintf("fail: %d bytes on the wire, %d were accepted before the time-out", len(wire), before+keep)
+	}
+	rec.Oracle["C04"] = verdict
+	emit(rec)
+}
+
 func main() {
 	seed := flag.Uint64("seed", 1, "seed")
 	n := flag.Int("n", 100, "number of cases")
@@ -679,6 +766,11 @@ func main() {
 		}
 		if i%25 == 13 {
 			runQuiet(id, r, []string{"initiator", "acceptor"}[(i/25)%2])
+			id++
+			continue
+		}
+		if i%25 == 19 {
+			runStalledWrite(id, r, []string{"initiator", "acceptor"}[(i/25)%2])
 			id++
 			continue
 		}
